@@ -53,6 +53,8 @@ class SemFlow(Flow):
         self.solver.add(*BASE_AXIOMS)
         self.queries = 0
         self.inlined = set()
+        self._opaque, self._keep = {}, []
+        self.named_consts = {}              # "path::CONST" -> value (associated constants the code loads with `const path::CONST`)
 
     # ---- helpers for models
     def fresh(self, prefix):
@@ -97,7 +99,18 @@ class SemFlow(Flow):
     def term(self, v):
         if isinstance(v, tuple) and v and v[0] == "zbool":
             raise Unsupported("zbool as a term")
+        if isinstance(v, tuple) and v and v[0] == "int":
+            return const("int_%d" % v[1])
+        if isinstance(v, tuple) and v and v[0] in ("vec", "set", "iter", "names", "optflag"):
+            # a container model handed to an unmodelled callee: an opaque value (its identity is the Python object's)
+            k = self._opaque.setdefault(id(v), len(self._opaque))
+            self._keep.append(v)
+            return const("opaque_%s_%d" % (v[0], k))
         return Flow.term(self, v)
+
+    @staticmethod
+    def is_int(v):
+        return isinstance(v, tuple) and len(v) == 2 and v[0] == "int"
 
     def project(self, P, v, p):
         if isinstance(v, tuple) and v and v[0] == "agg" and p[0] == "variant":
@@ -106,8 +119,32 @@ class SemFlow(Flow):
             raise Unsupported("variant projection %s of %s" % (p[1], v[1]))
         return Flow.project(self, P, v, p)
 
+    @staticmethod
+    def strip_generics(txt):
+        """`Result::<(), E>::Ok(x)` -> `Result::Ok(x)`: drop `::<...>` groups (balanced, `->` is not a bracket)"""
+        out, i, n = [], 0, len(txt)
+        while i < n:
+            if txt.startswith("::<", i):
+                depth, j = 0, i + 2
+                while j < n:
+                    c = txt[j]
+                    if c == "<":
+                        depth += 1
+                    elif c == ">" and txt[j - 1] != "-":
+                        depth -= 1
+                        if depth == 0:
+                            break
+                    j += 1
+                i = j + 1
+                continue
+            out.append(txt[i])
+            i += 1
+        return "".join(out)
+
     def rvalue(self, P, txt):
         txt = txt.strip()
+        if "::<" in txt and re.match(r"^[A-Za-z_][\w:]*::<", txt) and not txt.startswith("const "):
+            txt = self.strip_generics(txt)
         m = re.match(r"^discriminant\((.*)\)$", txt)
         if m:
             l, p = self.parse_place(m.group(1))
@@ -126,6 +163,23 @@ class SemFlow(Flow):
                     return v
                 raise Unsupported("cast of a structured value: " + txt[:80])
             return fun("cast_" + re.sub(r"\W+", "_", m.group(2)), 1)(self.term(v))
+        m = re.match(r"^(Eq|Ne|Lt|Le|Gt|Ge|Add|Sub|Mul|AddWithOverflow|SubWithOverflow|MulWithOverflow)\((.*)\)$", txt)
+        if m:
+            parts = split_top(m.group(2))
+            if len(parts) == 2:
+                a, b = self.operand(P, parts[0]), self.operand(P, parts[1])
+                if self.is_int(a) and self.is_int(b):      # sizes and indices of shape-concrete containers are concrete
+                    op, x, y = m.group(1), a[1], b[1]
+                    if op in ("Eq", "Ne", "Lt", "Le", "Gt", "Ge"):
+                        r = {"Eq": x == y, "Ne": x != y, "Lt": x < y, "Le": x <= y, "Gt": x > y, "Ge": x >= y}[op]
+                        return TRUE if r else FALSE
+                    r = {"A": x + y, "S": x - y, "M": x * y}[op[0]]
+                    if op.endswith("WithOverflow"):
+                        return ("agg", "tuple2", [("int", r), TRUE if (r < 0 or r >= 1 << 64) else FALSE])
+                    return ("int", r)
+        m = re.match(r"^Not\((?:copy|move) (_\d+)\)$", txt)
+        if m and self.fn.types.get(m.group(1)) == "bool":
+            return self.mkbool(P, z3.Not(truth(self, self.read(P, m.group(1), []))))
         m = re.match(r"^\{(closure|coroutine)@([^}]*)\}\s*(?:\{(.*)\})?$", txt)
         if m:
             fields = []
@@ -143,6 +197,11 @@ class SemFlow(Flow):
             return TRUE
         if t == "const false":
             return FALSE
+        mi = re.fullmatch(r"const (-?\d+)_[ui](?:8|16|32|64|128|size)", t)
+        if mi:
+            return ("int", int(mi.group(1)))
+        if t.startswith("const ") and t[6:].strip() in self.named_consts:
+            return self.named_consts[t[6:].strip()]
         return Flow.operand(self, P, txt)
 
     def exec(self, P, st, work, steps):
@@ -190,6 +249,18 @@ class SemFlow(Flow):
                 Q.calls = list(P.calls)
                 work.append((Q, tgt, steps, False))
             return "forked"
+        m = re.match(r"^assert\((!?)(?:move|copy) (.*?), \"", s)
+        if m:
+            try:
+                l, p = self.parse_place(m.group(2))
+                v = self.read(P, l, p)
+            except Unsupported:
+                v = None
+            if v is TRUE or v is FALSE:
+                holds = (v is TRUE) != (m.group(1) == "!")
+                if not holds:
+                    P.calls.append(("PANIC:assert", [], None))
+                    return "unreachable"
         m = re.match(r"^(.*?) = (.*) -> \[return: (bb\d+).*\]$", s)
         if m and "(" in m.group(2):
             dest, call, ret = m.group(1), m.group(2), m.group(3)
@@ -208,8 +279,20 @@ class SemFlow(Flow):
                 if re.search(pat, callee):
                     args = [self.operand(P, a) for a in split_top(call[start + 1:k]) if a.strip()]
                     res = eff(self, P, callee, args)
-                    P.calls.append((callee, args, res))
                     l, p = self.parse_place(dest)
+                    if isinstance(res, tuple) and res and res[0] == "fork":
+                        for newpc, rv, pseudo in res[1]:
+                            if self.prune and newpc and not self.feasible(P.pc + list(newpc)):
+                                continue
+                            Q = Path()
+                            Q.locals = dict(P.locals)
+                            Q.locals.update(pseudo)
+                            Q.pc = P.pc + list(newpc)
+                            Q.calls = list(P.calls) + [(callee, args, rv)]
+                            self.write(Q, l, p, rv)
+                            work.append((Q, ret, steps, False))
+                        return "forked"
+                    P.calls.append((callee, args, res))
                     self.write(P, l, p, res)
                     return ret
             # default: uninterpreted, but references are passed as the value they point to
@@ -228,19 +311,33 @@ class SemFlow(Flow):
         """execute `fn` on `args` from the current path; returns its result value (paths merged by implications)"""
         sub = SemFlow(self.fns, fn, self.models, self.vidx, counter=self.ctr, max_steps=self.max_steps, prune=self.prune)
         sub.inlined = self.inlined
+        sub.named_consts = self.named_consts
         self.inlined.add(fn.name)
         pre = {k: v for k, v in P.locals.items() if not re.fullmatch(r"_\d+", k)}
         if len(fn.params) != len(args):
             raise Unsupported("arity of inlined " + fn.name)
-        for (pn, _), a in zip(fn.params, args):
+        exported = {}
+
+        def export(a, depth=0):
+            """references to the caller's numbered locals (also inside aggregates, e.g. closure captures) get their own places: frames share no numbering"""
+            if depth > 12:
+                raise Unsupported("export depth")
             if isinstance(a, Ref) and re.fullmatch(r"_\d+", a.local):
-                # a reference to one of the caller's numbered locals: give the referent its own place (frames share no numbering)
-                name = "pfr%d" % self.ctr.next()
-                pre[name] = P.locals.get(a.local)
-                if pre[name] is None:
-                    pre[name] = self.init_value(P, a.local)
-                a = Ref(name, a.path, a.mut)
-            pre[pn] = a
+                if a.local not in exported:
+                    name = "pfr%d" % self.ctr.next()
+                    exported[a.local] = name
+                    v = P.locals.get(a.local)
+                    if v is None:
+                        v = self.init_value(P, a.local)
+                    pre[name] = export(v, depth + 1)
+                return Ref(exported[a.local], a.path, a.mut)
+            if isinstance(a, tuple) and a and a[0] == "agg":
+                return ("agg", a[1], [export(x, depth + 1) for x in a[2]])
+            return a
+        for k in list(pre):          # values parked in pseudo-places (closure environments) may hold such references too
+            pre[k] = export(pre[k])
+        for (pn, _), a in zip(fn.params, args):
+            pre[pn] = export(a)
         outs = sub.run("bb0", stop_at=(), pre=pre, pc=P.pc)
         self.queries += sub.queries
         rets = [(Q.pc[len(P.pc):], Q.locals.get("_0"), Q) for Q, end in outs if end == "return"]
@@ -256,11 +353,21 @@ class SemFlow(Flow):
             if isinstance(rv, Ref) and re.fullmatch(r"_\d+", rv.local):
                 raise Unsupported("inlined function returns a reference to its own local")
             return rv
+        try:
+            terms = [self.term(rv) for _, rv, _ in rets]
+        except Unsupported:
+            # structured results (aggregates holding references): the caller's path forks, one continuation per returning path
+            alts = []
+            for newpc, rv, Q in rets:
+                if isinstance(rv, Ref) and re.fullmatch(r"_\d+", rv.local):
+                    raise Unsupported("inlined function returns a reference to its own local")
+                alts.append((newpc, rv, {k: v for k, v in Q.locals.items() if not re.fullmatch(r"_\d+", k)}))
+            return ("fork", alts)
         r = self.fresh("inl")
         conds = []
-        for newpc, rv, Q in rets:
+        for (newpc, rv, Q), t in zip(rets, terms):
             c = z3.And(newpc) if newpc else z3.BoolVal(True)
             conds.append(c)
-            P.pc.append(z3.Implies(c, r == self.term(rv)))
+            P.pc.append(z3.Implies(c, r == t))
         P.pc.append(z3.Or(conds))
         return r
